@@ -93,7 +93,7 @@ def main():
         if m['verdict'] == 'CAUGHT':
             per[m['file']]['caught'] += 1
             continue
-        src = open('/repo/' + m['file'], 'rb').read()
+        src = open('/verif/tools/mutation/src/' + m['file'] + '.txt', 'rb').read()
         ls = src.rfind(b'\n', 0, m['start']) + 1
         le = src.find(b'\n', m['end'])
         line = (src[ls:m['start']] + b'[[' + src[m['start']:m['end']] + b' => ' + m['repl'].encode() + b']]' + src[m['end']:le]).decode().strip()
